@@ -326,7 +326,25 @@ func (e *Eng) inlineExternal(fn *ssa.Function) bool {
 	case "bytes", "strings", "sort", "math", "time":
 		return false
 	}
-	return false
+	// tiny pure leaf functions of any dependency (e.g. mathutil.MaxUint64): no calls, no loops, no stores
+	n := 0
+	for _, b := range fn.Blocks {
+		for _, s := range b.Succs {
+			if s.Dominates(b) {
+				return false
+			}
+		}
+		for _, in := range b.Instrs {
+			switch in.(type) {
+			case *ssa.Call, *ssa.Store, *ssa.Go, *ssa.Defer, *ssa.MapUpdate, *ssa.Send, *ssa.Select, *ssa.Panic, *ssa.Alloc, *ssa.MakeClosure:
+				return false
+			case *ssa.DebugRef:
+			default:
+				n++
+			}
+		}
+	}
+	return n > 0 && n <= 14
 }
 
 var _ = fmt.Sprintf
